@@ -9,6 +9,7 @@ def parseField (s : String) : Option PField :=
   else if s == "kb" ∨ s == "kt" then some (.longBinary (some [0]))
   else if s == "e" then some (.longBinary none)
   else if s == "v" then some .other
+  else if s.startsWith "b" then some .other     -- a VARBINARY value (key or nonce typed as VARBINARY): not a LONGBINARY field
   else match s.toList with
     | 'i' :: rest => (String.ofList rest).toInt?.map (fun v => .int4 (some v))
     | 'n' :: rest => (String.ofList rest).toNat?.map (fun n =>
@@ -45,7 +46,8 @@ def deliveredOf : List String → (last : Option Reply) → (pending : Bool) →
     let acc' := match last with
       | some (.done s) => if s == TDS_DONE_FINAL then acc else acc ++ [.done TDS_DONE_FINAL]
       | _ => acc ++ [.done TDS_DONE_FINAL]
-    deliveredOf ts last false acc'
+    -- the end of a message forgets the last recorded package (repo fix 58e2a2c)
+    deliveredOf ts none false acc'
   | t :: ts, last, _, acc =>
     match parseReply t with
     | none => none
